@@ -163,6 +163,7 @@ type cse struct {
 	closed  bool
 	blocked bool          // the timed call was seen pending by the probe
 	lastEl  time.Duration // duration of the last untimed Send
+	reqDL   time.Duration // send deadline in force when armRecv sends the REQ request (0: 3 s)
 }
 
 func (c *cse) add(key string, retry bool, f string, a ...interface{}) {
@@ -392,7 +393,11 @@ func (c *cse) armRecv() {
 		if c.p != nil {
 			n = c.p.SentCount()
 		}
-		if err := c.send(c.sub, "request", 3*time.Second); err != nil {
+		rd := 3 * time.Second
+		if c.reqDL > 0 && c.p != nil {
+			rd = c.reqDL // a send deadline much shorter than the wait for the reply: it concerns the Send only
+		}
+		if err := c.send(c.sub, "request", rd); err != nil {
 			hfail("req: request Send: %v", err)
 		}
 		if c.p != nil {
@@ -662,6 +667,7 @@ type recvCase struct {
 	QFull    bool   `json:"rq_full"`       // READQ-LEN = number of queued messages (receive queue full)
 	Zero     bool   `json:"explicit_zero"` // set a positive deadline first, then 0
 	Unblock  string `json:"unblock"`       // inject | close
+	ShortSD  bool   `json:"short_send_deadline"` // REQ: the request is sent under a 30 ms send deadline
 	Rseed    string `json:"rseed"`
 }
 
@@ -683,6 +689,7 @@ func TestC18RecvDeadline(t *testing.T) {
 			c.QFull = rapid.Bool().Draw(t, "rqfull")
 			c.Zero = rapid.Bool().Draw(t, "zero")
 			c.Unblock = rapid.SampledFrom([]string{"inject", "close"}).Draw(t, "unblock")
+			c.ShortSD = rapid.Bool().Draw(t, "shortSendDeadline")
 			recvRun(t, c)
 		})
 	})
@@ -719,9 +726,15 @@ func recvRun(t stats.TB, rc recvCase) {
 		rc.Zero, rc.Unblock = false, ""
 	}
 	d := ms(rc.Dms)
-	canon := fmt.Sprintf("recv|%s|%s|%s|%d|%d|%v|%v|%s", rc.Kind, rc.Scenario, rc.Peer, rc.Dms, rc.NQ, rc.QFull, rc.Zero, rc.Unblock)
+	if pat.name != "req" || rc.Peer == "none" {
+		rc.ShortSD = false
+	}
+	canon := fmt.Sprintf("recv|%s|%s|%s|%d|%d|%v|%v|%s|%v", rc.Kind, rc.Scenario, rc.Peer, rc.Dms, rc.NQ, rc.QFull, rc.Zero, rc.Unblock, rc.ShortSD)
 	run(t, rc, rc.Kind, canon, "recv:"+rc.Scenario+":"+rc.Peer, func(c *cse) {
 		c.setup(rc.Kind, -1)
+		if rc.ShortSD {
+			c.reqDL = 30 * time.Millisecond
+		}
 		if rc.QFull {
 			// READQ-LEN is a socket option, except SUB and SURVEYOR where each context has its own
 			on := c.sub
@@ -1228,7 +1241,7 @@ func TestC18FailNoPeers(t *testing.T) {
 		rapid.Check(t, func(t *rapid.T) {
 			c := npCase{Test: "TestC18FailNoPeers", Rseed: os.Getenv("VERIF_RSEED")}
 			c.Kind = rapid.SampledFrom(names).Draw(t, "kind")
-			c.State = rapid.SampledFrom([]string{"none", "left", "leave-send", "leave-send", "leave-recv", "off-leave-send", "connected", "connected-full"}).Draw(t, "state")
+			c.State = rapid.SampledFrom([]string{"none", "left", "leave-send", "leave-send", "leave-recv", "off-leave-send", "connected", "connected-full", "one-of-two-leaves"}).Draw(t, "state")
 			c.Dms = rapid.SampledFrom([]int{0, 5, 20, 50}).Draw(t, "d")
 			c.WQ = rapid.IntRange(1, 2).Draw(t, "wq")
 			npRun(t, c)
@@ -1243,8 +1256,11 @@ func npRun(t stats.TB, nc npCase) {
 	if nc.State == "leave-recv" && !isReq {
 		nc.State = "leave-send"
 	}
+	if nc.State == "one-of-two-leaves" && isReq {
+		nc.State = "leave-send" // a REQ context has one request at a time: no queue to fill behind two peers
+	}
 	switch nc.State {
-	case "leave-send", "leave-recv", "off-leave-send":
+	case "leave-send", "leave-recv", "off-leave-send", "one-of-two-leaves":
 		nc.Dms = 0
 	case "connected":
 		if nc.Dms != 0 && nc.Dms < 50 {
@@ -1343,6 +1359,62 @@ func npRun(t stats.TB, nc npCase) {
 				c.add("send-hang", false, "%s did not return within %v after Close", what, upper)
 			} else if r.err == mangos.ErrSendTimeout || r.err == mangos.ErrNoPeers {
 				c.add("send-wrong-error", false, "%s returned %s on Close", what, errName(r.err))
+			}
+
+		case "one-of-two-leaves":
+			// two peers, both stuck; one of them goes: a peer is still connected, so the option must
+			// not fire; it fires when the second one goes too
+			p1 := c.connect(true)
+			p2 := c.connect(true)
+			n, full := 0, false
+			for i := 0; i < nc.WQ+14 && !full; i++ {
+				switch err := c.send(c.sub, "fill", fillProbe); err {
+				case nil:
+					n++
+				case mangos.ErrSendTimeout:
+					full = p1.Blocked() >= 1 && p2.Blocked() >= 1
+					if !full {
+						p1.WaitBlocked(1, 300*time.Millisecond)
+						p2.WaitBlocked(1, 300*time.Millisecond)
+					}
+				default:
+					hfail("%s: fill Send: %v", c.kind, err)
+				}
+			}
+			if !full {
+				hfail("%s: queue did not fill with two stuck peers (wq=%d, %d accepted)", c.kind, nc.WQ, n)
+			}
+			c.setOpt(c.sub, mangos.OptionSendDeadline, time.Duration(0))
+			what := fmt.Sprintf("%s Send without deadline (FAIL-NO-PEERS set, WRITEQ-LEN %d, queue full after %d messages, two peers stuck)", nc.Kind, nc.WQ, n)
+			m := c.newMsg(c.body("waiting"))
+			ch := async(func() (*mangos.Message, error) { return nil, c.sub.SendMsg(m) })
+			if r, ok := waitRes(ch, waitProbe); ok {
+				c.add("nodeadline-returned", false, "%s returned %s after %v although nothing could complete it", what, errName(r.err), r.el)
+				return
+			}
+			c.blocked = true
+			nd := c.ev.Detached()
+			_ = p1.Close()
+			if !c.ev.WaitDetached(nd+1, 5*time.Second) {
+				hfail("%s: closed pipe not detached within 5s", c.kind)
+			}
+			if r, ok := waitRes(ch, waitProbe); ok {
+				if r.err == mangos.ErrNoPeers {
+					c.add("nopeers-while-connected", false, "%s returned ErrNoPeers when one of its two peers left although the other is still connected", what)
+				} else if r.err != nil {
+					c.add("nodeadline-returned", false, "%s returned %s when one of its two peers left", what, errName(r.err))
+				}
+				// nil: the departed peer's share of the queue went with it and made room — fine
+				return
+			}
+			_ = p2.Close()
+			r, ok := waitRes(ch, atOnce)
+			switch {
+			case !ok:
+				c.add("nopeers-missed-leave", false, "%s was still blocked %v after the last peer left", what, atOnce)
+				c.join(ch)
+			case r.err != mangos.ErrNoPeers && r.err != nil:
+				c.add("nopeers-wrong-error", false, "%s returned %s when the last peer left, want ErrNoPeers", what, errName(r.err))
 			}
 
 		case "leave-recv":
